@@ -190,9 +190,7 @@ func (g *GenCtx) Gen(d *Desc, v reflect.Value, ft string) {
 			g.cov("optional:present")
 		}
 		if g.depth > 12 {
-			if ft == "m" || ft == "mr" {
-				return
-			}
+			return // deep (recursive) pointer chains end with nil: the value is then rejected by the encoder
 		}
 		p := reflect.New(v.Type().Elem())
 		g.Gen(d.Elem, p.Elem(), "p")
